@@ -373,8 +373,8 @@ def fallback_and_dispatch(rep):
             ok = None
     rep.ob("O6.5", "SHAPE", fi, ok, rets[-1] if rets else "return", "past the threshold the result of the selected strategy is emptied, otherwise returned unchanged")
     th = defs_thresh = local_defs(fi.node).get(thresh, [])
-    ok = bool(th) and isinstance(th[0].value, ast.IfExp) and norm(th[0].value.test) == "threshold is not None" \
-        and norm(th[0].value.body) == "threshold" and norm(th[0].value.orelse).endswith("DEFAULT_THRESHOLD")
+    ok = bool(th) and pmatch("threshold if threshold is not None else $$d", th[0].value) is not None \
+        and pmatch("threshold if threshold is not None else $$d", th[0].value)["d"].endswith("DEFAULT_THRESHOLD")
     rep.ob("O6.5", "SHAPE", fi, ok if th else None, th[0].stmt if th else "thresh", "the effective threshold is the caller's, else the default")
     # pre-filter only when requested
     pf = [c for c in walk_local(fi.node) if isinstance(c, ast.Call) and call_name(c) == "_quick_pre_filter"]
